@@ -480,6 +480,29 @@ pub fn run(ctx: &mut Ctx) {
     });
     ctx.require(&r, &["decoded", "decode_error", "binary_decode_returned"]);
 
+    // byte-string payloads of length 7 and 8 over a small byte alphabet (native 7-byte DATE layouts and the like)
+    let balpha: [u8; 7] = [0, 1, 2, 100, 120, 121, 255];
+    let nb = balpha.len() as u64;
+    let r = ctx.sweep_each(&format!("{pre}byte_string_payloads"), "every 7-byte string over {0,1,2,100,120,121,255} (and the same with one more byte) handed to each type's Deserialize as a byte string", nb.pow(7), 4096, |idx, acc| {
+        use serde::de::value::{BytesDeserializer, Error as VE};
+        use serde::Deserialize;
+        let mut bytes = [0u8; 8];
+        let mut k = idx;
+        for b in bytes.iter_mut().take(7) { *b = balpha[(k % nb) as usize]; k /= nb; }
+        bytes[7] = bytes[0];
+        acc.states += 1;
+        for len in [7usize, 8] {
+            acc.t(6);
+            let r = guard(|| {
+                let s = &bytes[..len];
+                (Date::deserialize(BytesDeserializer::<VE>::new(s)).is_ok(), Time::deserialize(BytesDeserializer::<VE>::new(s)).is_ok(), Timestamp::deserialize(BytesDeserializer::<VE>::new(s)).is_ok(),
+                 IntervalYM::deserialize(BytesDeserializer::<VE>::new(s)).is_ok(), IntervalDT::deserialize(BytesDeserializer::<VE>::new(s)).is_ok(), OracleDate::deserialize(BytesDeserializer::<VE>::new(s)).is_ok())
+            });
+            match r { Ok(_) => acc.cls("returned"), Err(()) => acc.fail(&format!("C03:{p}:bytes-decode:panic"), idx, || (format!("Deserialize from the byte string {:?}", &bytes[..len]), "a value or an error".into(), "panic".into(), String::new())) }
+        }
+    });
+    ctx.require(&r, &["returned"]);
+
     // ---- the other profile, in a child process
     if p == "fast" && !ctx.child && ctx.replay.is_none() {
         match std::env::var("VERIF_CHECKED_BIN") {
